@@ -50,6 +50,15 @@ class SessionKilled(BaseException):
 
 class SimEnv:
     def __init__(self, cfg: Dict[str, Any], world_dir: str, emit: Callable[[Dict[str, Any]], None]) -> None:
+        self._orig: Dict[str, Any] = {}
+        self._installed = False
+        self.active = True
+        self.configure(cfg, world_dir, emit)
+
+    def configure(self, cfg: Dict[str, Any], world_dir: str, emit: Callable[[Dict[str, Any]], None]) -> None:
+        """(Re-)initialises the per-session state. The seams are installed once, by the zygote, *before* the system
+        under test is imported (so that `from concurrent.futures import as_completed`, `from os import listdir` ...
+        bind the simulated objects too); every session child re-configures that one environment object."""
         self.cfg = cfg
         self.world_dir = os.path.realpath(world_dir)
         self.emit = emit
@@ -80,8 +89,15 @@ class SimEnv:
         self._worker_events: List[Dict[str, Any]] = []
         self.open_counts: Dict[str, int] = {}
         self.cur_op: int = -1
-        self._orig: Dict[str, Any] = {}
         self.io_counts: Dict[str, Dict[str, int]] = {}
+        if self._installed:
+            self._after_configure()
+
+    def _after_configure(self) -> None:
+        import tempfile
+        from . import simpool
+        self.threads = simpool.SimThreads(self)
+        tempfile._name_sequence = self._names_cls(self.clock_seed)
 
     # -- logging -------------------------------------------------------------------------------
     def log(self, ev: str, **kw: Any) -> None:
@@ -255,9 +271,13 @@ class SimEnv:
     def install(self) -> None:
         global _CURRENT
         _CURRENT = self
+        if self._installed:
+            return
+        env = self
         import time as _time
-        _time.time = self.sim_time
-        _time.time_ns = lambda: int(self.sim_time() * 1e9)
+        real_time, real_time_ns = _time.time, _time.time_ns
+        _time.time = lambda: env.sim_time() if env.active else real_time()
+        _time.time_ns = lambda: int(env.sim_time() * 1e9) if env.active else real_time_ns()
         import multiprocessing
         import multiprocessing.pool
         import multiprocessing.process
@@ -267,7 +287,6 @@ class SimEnv:
         import tracemalloc
         from . import simpool
 
-        env = self
         multiprocessing.cpu_count = lambda: env.cpu_count
         os.cpu_count = lambda: env.cpu_count
         if hasattr(os, "process_cpu_count"):
@@ -292,7 +311,6 @@ class SimEnv:
         concurrent.futures._base.wait = simpool.sim_wait
         multiprocessing.pool.ThreadPool = simpool.SimThreadPool
         multiprocessing.dummy.Pool = simpool.SimThreadPool
-        self.threads = simpool.SimThreads(self)
         try:
             import psutil
             psutil.virtual_memory = lambda: types.SimpleNamespace(
@@ -309,28 +327,34 @@ class SimEnv:
         real_fork = os.fork
 
         def guarded_fork() -> int:
-            if env._fork_ok <= 0:
+            if env._fork_ok <= 0 and env.active:
                 env.stats["unsimulated_concurrency"] += 1
                 env.log("escape", what="os.fork")
             return real_fork()
 
         os.fork = guarded_fork
-        threads = self.threads
+        real_thread_start = threading.Thread.start
+        real_thread_join = threading.Thread.join
+        real_thread_is_alive = threading.Thread.is_alive
 
         def sim_thread_start(self_thread, *a, **k):
+            if not env.active:
+                return real_thread_start(self_thread, *a, **k)
             if env.in_worker is not None:
                 # inside a pool worker nothing owns a tape for it
                 env.stats["unsimulated_concurrency"] += 1
                 env.log("escape", what="threading.Thread.start in a pool worker")
-            threads.start(self_thread)
+            env.threads.start(self_thread)
 
         def sim_thread_join(self_thread, timeout=None):
             if getattr(self_thread, "_sim_state", None) is None:
-                raise RuntimeError("cannot join thread before it is started")
-            threads.join(self_thread)
+                return real_thread_join(self_thread, timeout)
+            env.threads.join(self_thread)
 
         def sim_thread_is_alive(self_thread):
-            return getattr(self_thread, "_sim_state", None) in ("pending", "running")
+            if getattr(self_thread, "_sim_state", None) is None:
+                return real_thread_is_alive(self_thread)
+            return self_thread._sim_state in ("pending", "running")
 
         threading.Thread.start = sim_thread_start
         threading.Thread.join = sim_thread_join
@@ -338,7 +362,9 @@ class SimEnv:
         real_q_get = _queue.Queue.get
 
         def sim_q_get(self_q, block=True, timeout=None):
-            while block and self_q.empty() and threads.step():
+            if not env.active:
+                return real_q_get(self_q, block, timeout)
+            while block and self_q.empty() and env.threads.step():
                 pass
             if block and self_q.empty() and env.in_worker is None and timeout is None:
                 from .simpool import SimDeadlock
@@ -349,8 +375,9 @@ class SimEnv:
         real_proc_start = multiprocessing.process.BaseProcess.start
 
         def guarded_proc_start(self_proc, *a, **k):
-            env.stats["unsimulated_concurrency"] += 1
-            env.log("escape", what="multiprocessing.Process.start")
+            if env.active:
+                env.stats["unsimulated_concurrency"] += 1
+                env.log("escape", what="multiprocessing.Process.start")
             return real_proc_start(self_proc, *a, **k)
 
         multiprocessing.process.BaseProcess.start = guarded_proc_start
@@ -449,8 +476,9 @@ class SimEnv:
             def __next__(self) -> str:
                 return "".join("abcdefghijklmnopqrstuvwxyz0123456789_"[self.rng.below(37)] for _ in range(8))
 
-        tempfile._name_sequence = _Names(env.clock_seed)
-        tempfile._get_candidate_names = lambda: tempfile._name_sequence
+        self._names_cls = _Names
+        real_candidates = tempfile._get_candidate_names
+        tempfile._get_candidate_names = lambda: tempfile._name_sequence if env.active else real_candidates()
 
         # operations on directory entries: every call on a path of the workspace is a logged fault point
         import shutil
@@ -494,6 +522,8 @@ class SimEnv:
             wrap_fsop(os, name)
         for name in ("move", "copyfile", "copy", "copy2", "rmtree"):
             wrap_fsop(shutil, name)
+        self._installed = True
+        self._after_configure()
 
     def real_open(self, *a: Any, **k: Any):
         return self._orig.get("open", builtins.open)(*a, **k)
